@@ -36,18 +36,29 @@ class Iface:
 _IF_CACHE = {}
 
 
-def class_iface(repo, cls):
-    """External interface (bare promoted names) of a repository class, union over valuations."""
+def _compat(sig_a, sig_b):
+    for k, v in sig_a.items():
+        if k in sig_b and sig_b[k] != v:
+            return False
+    return True
+
+
+def class_iface(repo, cls, sigma=None):
+    """External interface (bare promoted names) of a repository class: union over
+    the valuations compatible with ``sigma`` (all valuations when None)."""
     if not isinstance(cls, ClassInfo):
         return Iface(known=False)
-    if cls.key in _IF_CACHE:
-        return _IF_CACHE[cls.key]
-    _IF_CACHE[cls.key] = Iface(known=False)  # recursion guard
+    ck = (cls.key, tuple(sorted((sigma or {}).items())))
+    if ck in _IF_CACHE:
+        return _IF_CACHE[ck]
+    _IF_CACHE[ck] = Iface(known=False)  # recursion guard
     if cls.kind in ("explicit", "implicit"):
         m = component_model(repo, cls)
         ins, outs = set(), set()
         known = bool(m.setup_views)
         for sv in m.setup_views:
+            if sigma is not None and not _compat(sv.sigma, sigma):
+                continue
             ins |= {norm(x) for x in sv.inputs}
             outs |= {norm(x) for x in sv.outputs}
             if sv.unresolved:
@@ -58,6 +69,8 @@ def class_iface(repo, cls):
         ins, outs = set(), set()
         known = True
         for gr in gm.runs:
+            if sigma is not None and not _compat(gr.sigma, sigma):
+                continue
             lv = level_view(repo, gr, "self")
             known = known and lv.known
             for s, (si, so) in lv.names.items():
@@ -68,7 +81,7 @@ def class_iface(repo, cls):
         res = Iface(known=False)
     else:
         res = Iface(known=False)
-    _IF_CACHE[cls.key] = res
+    _IF_CACHE[ck] = res
     return res
 
 
@@ -103,6 +116,29 @@ def _promote_list(v):
     return out
 
 
+def child_sigma(sigma, s):
+    """The parent's valuation expressed in the child's own option names: only
+    atoms over values handed to the child's constructor constrain the child."""
+    out = {}
+    reps = []
+    for k, v in (s.ctor_kwargs or {}).items():
+        if v is None or not v.cx:
+            continue
+        if v.kind in ("cfgdict", "cfglist"):
+            reps.append((v.cx, k))
+            if "[0]" in v.cx:
+                reps.append((v.cx.replace("[0]", "[i]"), k))
+        else:
+            reps.append((v.cx, "options[%r]" % k))
+    reps.sort(key=lambda r: -len(r[0]))
+    for key, val in sigma.items():
+        for a, b in reps:
+            if a in key:
+                out[key.replace(a, b)] = val
+                break
+    return out
+
+
 class LevelView:
     """Names of every subsystem of one group object as seen at that level."""
 
@@ -134,7 +170,7 @@ def level_view(repo, gr, owner):
             continue
         lv.order.append(name)
         if isinstance(s.cls, ClassInfo):
-            ci = class_iface(repo, s.cls)
+            ci = class_iface(repo, s.cls, child_sigma(gr.sigma, s))
             # instantiate option placeholders of the names from the constructor arguments
             sub = {}
             for k, v in (s.ctor_kwargs or {}).items():
